@@ -98,3 +98,26 @@ package transaction
 //@   modifies txnWatches
 //@   ensures txnWatches == old(txnWatches) + 1
 //@   ensures errWF(err)
+
+// C15, write half: the store implementation over the atomix primitive. Every update is conditional on
+// the version the caller read (guards of the assumed contracts in /verif/contracts/lib/atomix.spec),
+// versions and revisions only grow, a record that was never read cannot be written, and the write
+// goes to the record's own key.
+//@ func (*transactionStore).Update(s, ctx, transaction) (err)
+//@   props C15
+//@   requires s != nil && s.transactions != nil && transaction != nil
+//@   ensures {C15} version-and-revision-grow: err == nil ==> transaction.Version > old(transaction.Version) && transaction.Revision == old(transaction.Revision) + 1
+//@   ensures {C15} unread-record-refused: old(transaction.Version) == 0 || old(transaction.Revision) == 0 ==> err != nil && condWrites == old(condWrites)
+//@   ensures {C15} one-conditional-write-to-own-key: condWrites <= old(condWrites) + 1 && inserts == old(inserts) && (condWrites > old(condWrites) ==> lastWriteKey == transaction.ID) && (err == nil ==> condWrites == old(condWrites) + 1)
+//@ func (*transactionStore).UpdateStatus(s, ctx, transaction) (err)
+//@   props C15
+//@   requires s != nil && s.transactions != nil && transaction != nil
+//@   ensures {C15} version-grows-revision-kept: err == nil ==> transaction.Version > old(transaction.Version) && transaction.Revision == old(transaction.Revision)
+//@   ensures {C15} unread-record-refused: old(transaction.Version) == 0 || old(transaction.Revision) == 0 ==> err != nil && condWrites == old(condWrites)
+//@   ensures {C15} one-conditional-write-to-own-key: condWrites <= old(condWrites) + 1 && inserts == old(inserts) && (condWrites > old(condWrites) ==> lastWriteKey == transaction.ID) && (err == nil ==> condWrites == old(condWrites) + 1)
+//@ func (*transactionStore).Create(s, ctx, transaction) (err)
+//@   props C15
+//@   requires s != nil && s.transactions != nil && transaction != nil
+//@   ensures {C15} only-new-records-are-created: old(transaction.Version) != 0 || old(transaction.Revision) != 0 ==> err != nil && inserts == old(inserts)
+//@   ensures {C15} created-record-is-versioned: err == nil ==> transaction.Revision == 1 && transaction.Version > 0 && inserts == old(inserts) + 1 && lastWriteKey == transaction.ID
+//@   ensures {C15} create-never-overwrites: condWrites == old(condWrites) && inserts <= old(inserts) + 1
